@@ -318,6 +318,9 @@ func (in *inliner) process(fn *ssa.Function) {
 			}
 			renumber(fn)
 		}
+		if in.foldNilBranches(fn) {
+			renumber(fn)
+		}
 		removeUnreachable(fn)
 		renumber(fn)
 		rebuildReferrers(fn)
@@ -1714,3 +1717,52 @@ func (p *Program) OwnerFns(fn *ssa.Function) []*ssa.Function {
 }
 
 func isConstVal(v ssa.Value) bool { _, ok := v.(*ssa.Const); return ok }
+
+// foldNilBranches: a branch on `e == nil` / `e != nil` where e is, structurally, a freshly constructed error
+// (errors.New, fmt.Errorf, Wrap of a sentinel …: never nil) is decided. Such branches appear when a helper that returns
+// an error handed to it as an argument (`return failure`) was split into "if failure != nil" and inlined at a call that
+// passes a constructed error.
+func (in *inliner) foldNilBranches(fn *ssa.Function) bool {
+	if os.Getenv("XLINT_NO_NILFOLD") != "" {
+		return false
+	}
+	changed := false
+	for _, b := range fn.Blocks {
+		iff, ok := lastInstr(b).(*ssa.If)
+		if !ok || len(b.Succs) != 2 || b.Succs[0] == b.Succs[1] {
+			continue
+		}
+		bo, ok := iff.Cond.(*ssa.BinOp)
+		if !ok || (bo.Op != token.EQL && bo.Op != token.NEQ) {
+			continue
+		}
+		var x ssa.Value
+		if isNilConst(bo.Y) {
+			x = bo.X
+		} else if isNilConst(bo.X) {
+			x = bo.Y
+		}
+		call, isCall := x.(*ssa.Call)
+		if !isCall || !isErrorType(call.Type()) {
+			continue
+		}
+		k := in.classify(fn, call, b, 0)
+		if k != "nonnil" {
+			continue
+		}
+		taken := 0 // e != nil
+		if bo.Op == token.EQL {
+			taken = 1
+		}
+		notTaken := b.Succs[1-taken]
+		keep := b.Succs[taken]
+		b.Instrs[len(b.Instrs)-1] = newJump(b)
+		b.Succs = []*ssa.BasicBlock{keep}
+		removePredEdge(notTaken, b)
+		changed = true
+	}
+	if changed {
+		invalidateDom(fn)
+	}
+	return changed
+}
